@@ -205,7 +205,16 @@ func runC19(c *core.Ctx) {
 		e := liquid.NewEngine().Delims(engQ[0], engQ[1], engQ[2], engQ[3])
 		RegisterCustom(e)
 		b := gen.CanonEnv(gen.StdEnv(core.NewRand(c.Seed, 0xC19)))
-		for _, tpl := range c19TagArg {
+		// arguments whose last character could begin (or has just ended) a closing delimiter, in either spelling: the
+		// blank before the closing delimiter is no part of them
+		cases := append([]string{}, c19TagArg...)
+		for _, ch := range []string{"%", "}", q[3][:1], q[1][len(q[1])-1:], q[1][:1], ")"} {
+			if strings.ContainsAny(ch, "«\x00") || ch[0] >= 0x80 {
+				continue
+			}
+			cases = append(cases, "«T xinfo a"+ch+" «t|«T xecho b"+ch+" «t|«T xinfo ("+ch+") -«t  |«T xecho «O n «o"+ch+" «t|", "«T xecho «O n «o «t|«T xecho «O n «o -«t z")
+		}
+		for _, tpl := range cases {
 			src, rs := c19Spell(tpl, ref.DefaultDelims), c19Spell(tpl, q)
 			if !c19SameShape(src, ref.DefaultDelims, rs, q, 0) {
 				c.Skip("re-spelled tag argument collides with the delimiters")
